@@ -180,15 +180,15 @@ claim('C08',
           A2, A4, IC,
           'A3: sorted() returns a stable permutation ordered by the key (its `reverse` argument is not modelled)',
           'wiring of a group\'s entry side is stable during a neighbour call (rely of GroupPath protects it)',
-          'Group.__init__ (iterates a set), GroupInput.notify_upstream_of_available_space and GroupPath.space_available_downstream '
-          'are not under contract',
+          'Group.__init__ (iterates a set) is not under contract',
       ],
       explanation='offers go only to members of the configured downstream list in candidate order (sorted by waiting-since, None '
                   'last), first True wins; gates refuse without any other call when the predicate is False; blocked inputs refuse; a '
                   'refused hand-over removes the history entry it added and the group-stack entry it pushed; GroupOutput leaves '
                   'through the path on top of the stack and removes exactly this group\'s entry (defect found and repaired); sink '
                   'collects in arrival order; a pass-through device reports the earliest idle stamp of its downstream devices (a stamp '
-                  'of 0 counts); idle stamps (waiting-for-part-since) bookkeeping; wiring symmetry pieces of set_upstream.')
+                  'of 0 counts); a group forwards space notifications from its exit device to the last devices of the group and from its '
+                  'entry device to every upstream of every path, once each, in order; idle stamps (waiting-for-part-since) bookkeeping; wiring symmetry pieces of set_upstream.')
 claim('C15',
       assumptions=[
           A2, A4,
